@@ -11,7 +11,7 @@ from vlib import fixchecks
 
 PROP = "C12"
 RULESETS = "all layout capitalisation cap_upper cap_lower cap_pascal cap_snake cap_camel layout_alt".split()
-KINDS = "fixture mutant gen".split()
+KINDS = "fixture mutant gen cmt quo edge".split()
 WHAT = "re-lexing the fixed SQL does not give the token boundaries and kinds of the fixed tree (tokens glued or split)"
 
 
@@ -21,7 +21,7 @@ def run(ctx, prove=True):
     if prove:
         ctx.prove(["SqlfluffVerif.Props.C12"], ["Props/C12.lean"])
     ctx.partial += ["the rules' edits are not modelled one by one: the theorem composes edits that satisfy the per-edit condition, the end-to-end spec is evaluated on real runs"]
-    fixchecks.run_universe(ctx, PROP, RULESETS, ctx.budget(160, 10 ** 9), WHAT, KINDS)
+    fixchecks.run_universe(ctx, PROP, RULESETS, ctx.budget(300, 10 ** 9), WHAT, KINDS, focus=("cmt",))
 
 
 def search(ctx):
